@@ -72,11 +72,15 @@ class Recorder:
             self.events.append((self.loop.time(), self.loop.iter, kind, arg))
 
 
-def run_scenario(script, close_at=None, threshold=5, sleep_sec=5, max_delay=60, max_iters=100000, close_time=None):
+def run_scenario(script, close_at=None, threshold=5, sleep_sec=5, max_delay=60, max_iters=100000, close_time=None,
+                 real_protocol=False):
     """script: list of (outcome, duration, lifetime): outcome 'ok'/'fail', duration = seconds the attempt
     takes (0 = resolves at the next loop iteration), lifetime = seconds until the connection is lost
     (None = stays up). After the script the factory never resolves (pending forever).
-    close_at: loop iteration at which close() is called (None = never); close_time: virtual time."""
+    close_at: loop iteration at which close() is called (None = never); close_time: virtual time.
+    real_protocol: the factory returns the library's own SmartMeterMessageProtocol (connection_made / connection_lost are
+    called the way a transport does); lifetime 0 then means "lost before the factory has even returned", and a lifetime
+    given as the string "soon" means "lost in the loop iteration after the factory returned"."""
     import han.meter_connection as mc
     logging.disable(logging.CRITICAL)
     loop = VLoop()
@@ -104,15 +108,30 @@ def run_scenario(script, close_at=None, threshold=5, sleep_sec=5, max_delay=60, 
             rec.ev("failed", k)
             raise ConnectionError("scripted failure")
         tr = FakeTransport(rec, k)
-        pr = FakeProtocol(loop)
+        if real_protocol:
+            pr = mc.SmartMeterMessageProtocol(asyncio.Queue(), [])
+            pr.connection_made(tr)
+        else:
+            pr = FakeProtocol(loop)
         rec.ev("obtained", k)
         if lifetime is not None:
             def lose():
-                if not pr.done.done() and not tr.closed:
+                if tr.closed:
+                    return
+                if real_protocol:
+                    rec.ev("lost", k)
+                    tr.closed = True     # the connection is gone (the protocol's own close() of it is not an event)
+                    pr.connection_lost(None)
+                elif not pr.done.done():
                     rec.ev("lost", k)
                     tr.closed = True     # the connection is gone
                     pr.done.set_result(None)
-            loop.call_later(lifetime, lose)
+            if real_protocol and lifetime == 0:
+                lose()
+            elif real_protocol and lifetime == "soon":
+                loop.call_soon(lose)
+            else:
+                loop.call_later(lifetime, lose)
         return tr, pr
 
     mgr = mc.ConnectionManager(factory)
